@@ -173,6 +173,9 @@ def summarise(interp, b: CompB, body, env, path, node, src_cell):
         # hypotheses created inside the body (skolem definitions etc.) stay valid for every index
         for h in p.hyps[len(parent.hyps):]:
             path.hyps.append(h)
+        for nm in p.atom_names:
+            if nm not in path.atom_names:
+                path.atom_names.append(nm)
 
     if breaks:
         _summarise_break(interp, b, idx, premise, normal, breaks, raises, path, outer_cells, node)
